@@ -458,6 +458,7 @@ def filter_overlapping(tokens):
     i = 0
     while i < len(tokens) - 1:
         j = i + 1
+        curr_discarded = False
         while j < len(tokens):
             curr_tok = tokens[i]
             next_tok = tokens[j]
@@ -484,9 +485,13 @@ def filter_overlapping(tokens):
                 else:
                     logger_debug('  del curr_tok smaller overlap:', curr_tok)
                     del tokens[i]
+                    curr_discarded = True
                     break
             j += 1
-        i += 1
+        if not curr_discarded:
+            # when the current token was discarded, the next token took its
+            # place at index i and must be checked against its own followers
+            i += 1
     return tokens
 
 
